@@ -376,6 +376,13 @@ fn normalise(line: &str, sim: &Sim) -> String {
     for (k, id) in sim.indication_ids.iter().enumerate() {
         s = sub(&s, &crate::sim::short_id(id), &format!("I{}", k));
     }
+    // the free text of an InternalError is not an observable the properties speak about (it may
+    // even quote a random transaction id): only the fact that it is an InternalError is compared
+    if let (Some(a), Some(b)) = (s.find("InternalError("), s.rfind(") events=")) {
+        if b > a {
+            s = format!("{}InternalError(..){}", &s[..a], &s[b..]);
+        }
+    }
     // drop the step number and the raw bytes (they contain the random ids)
     let s = match s.find(' ') {
         Some(i) => s[i + 1..].to_string(),
